@@ -530,6 +530,21 @@ func distChains() []dcfg {
 			}
 		}
 	}
+	// an internal account filled by an early sub-distributor and consumed only after a later
+	// sub-distributor that also draws from MAIN: what is booked on the internal account must not be
+	// taken for fresh MAIN inflow in between
+	for _, sh := range []string{"0.5", "0.333333333333333333"} {
+		for _, b := range []string{"0", "0.01"} {
+			for _, mid := range []dacc{aMAIN, aI2} {
+				out = append(out, dcfg{
+					{Sources: []dacc{aMAIN}, Primary: aI1, Shares: []dshare{{u2, sh}}, Burn: b},
+					{Sources: []dacc{aMfee}, Primary: mid, Shares: []dshare{{aMgeb, "0.05"}}, Burn: "0"},
+					{Sources: []dacc{mid}, Primary: aVRC, Shares: []dshare{{u2, sh}}, Burn: b},
+					{Sources: []dacc{aI1}, Primary: aMgeb, Shares: []dshare{{u1, "0.05"}}, Burn: "0"},
+				})
+			}
+		}
+	}
 	return out
 }
 
